@@ -339,6 +339,29 @@ func init() {
 				Quick: map[string]int{"P": 1, "C": 2, "PB": -1}, Thorough: map[string]int{"P": 1, "C": 3, "PB": 2}, MaxSteps: 3_000_000},
 		},
 	})
+	// ---------------------------------------------------------------- C39
+	c39 := func(q, t map[string]int) harnessSpec {
+		return harnessSpec{Name: "VxC39", Pkg: "github.com/goplus/xgo/x/jsonrpc2", Files: []string{"c39/c39.go", "gen:instrument"}, Goroutine: true,
+			ReplayTimeout: 120 * time.Second, Quick: q, Thorough: t, MaxSteps: 3_000_000}
+	}
+	register(&checkSpec{
+		ID:   "C39",
+		Rule: "one real Connection (newConnection, Call, Await, Close, Wait, Respond, readIncoming, acceptRequest, handleAsync, processResult, write, updateInFlight; the real context.WithCancel) over a message-level wire owned by the harness (Framer handing Message values through channels); goroutines: NC clients (Call + Await), a peer whose behaviour is a symbolic choice up to PEER (0 answers, 1 answers twice, 2 sends an unknown ID first, 3 disconnects instead), INC=1 an incoming call handled synchronously, INC=2 handled through ErrAsyncResponse and a later Respond, CLOSE=1 a concurrent Close; every scheduling decision at a mutex / channel / select operation and every choice among ready select cases is a symbolic variable; checked: no 'retire called twice' / 'non-idle when done' / 'incoming count already zero' panic on any schedule, and at quiescence every Await has returned with an error or with the response carrying its own ID, every incoming call was answered at most once, Close returned and no handler was still running when it did",
+		Assumptions: []string{
+			"bound: NC clients, one incoming call, at most PB pre-emptive context switches per schedule (CHESS-style); the scenario family is stated in the rule - notifications, Cancel and a failing Writer are not exercised",
+			"the wire is at message level: framing and JSON encoding are C38's subject; calls carry nil params and handlers answer with an error value, so encoding/json is never entered",
+			"sync.Mutex, channels, select and atomic.Value are the engine's models; context is interpreted from its source (WithCancel, cancel propagation through the notDone wrapper)",
+			"native replay follows the solver's schedule through the overlay instrumentation (see C40)",
+		},
+		Harnesses: []harnessSpec{
+			c39(map[string]int{"NC": 1, "CLOSE": 0, "INC": 0, "PEER": 3, "PB": 2}, map[string]int{"NC": 1, "CLOSE": 0, "INC": 0, "PEER": 3, "PB": 3}),
+			c39(map[string]int{"NC": 1, "CLOSE": 1, "INC": 0, "PEER": 3, "PB": 1}, map[string]int{"NC": 1, "CLOSE": 1, "INC": 0, "PEER": 3, "PB": 2}),
+			c39(map[string]int{"NC": 1, "CLOSE": 0, "INC": 1, "PEER": 0, "PB": 1}, map[string]int{"NC": 1, "CLOSE": 1, "INC": 1, "PEER": 1, "PB": 1}),
+			c39(map[string]int{"NC": 0, "CLOSE": 1, "INC": 1, "PEER": 0, "PB": 2}, map[string]int{"NC": 0, "CLOSE": 1, "INC": 1, "PEER": 0, "PB": 3}),
+			c39(map[string]int{"NC": 0, "CLOSE": 1, "INC": 2, "PEER": 0, "PB": 1}, map[string]int{"NC": 0, "CLOSE": 1, "INC": 2, "PEER": 0, "PB": 2}),
+			c39(map[string]int{"NC": 2, "CLOSE": 0, "INC": 0, "PEER": 0, "PB": 1}, map[string]int{"NC": 2, "CLOSE": 1, "INC": 0, "PEER": 3, "PB": 1}),
+		},
+	})
 	register(&checkSpec{
 		ID:   "C41",
 		Rule: "a connection from the real NewConn over harness reader/writer ends; one writer (W writes of symbolic bytes), one reader (R reads), optionally one closer run as interpreted goroutines next to the two feeder goroutines; every scheduling decision at a channel / select / mutex operation and every choice among ready select cases is a symbolic variable the explorer forks over; checked at quiescence: delivery in order and unmodified, EOF for I/O pending or started after Close, nothing left blocked after Close",
